@@ -18,6 +18,8 @@ Require Import MD.Desc.RdfModel MD.Desc.RdfProofs.
 Require Import MD.Desc.KarplusProofs.
 Require Import MD.Desc.SchemeDsl MD.Gen.DescSchemes MD.Desc.SchemeSem.
 Require Import MD.Desc.OrderModel MD.Desc.OrderProofs.
+Require Import MD.Gen.DescOptions MD.Desc.FrontModel MD.Desc.FrontProofs MD.Desc.DipoleModel MD.Desc.DipoleProofs.
+Require Import MD.Desc.DensityModel MD.Desc.DensityProofs.
 Close Scope Q_scope. Close Scope R_scope. Open Scope nat_scope.
 
 (* ================================================================== contacts *)
@@ -127,6 +129,115 @@ Theorem squareform_labels : forall d pairs,
 Proof. exact squareform_spec. Qed.
 Print Assumptions squareform_labels.
 
+(* ---- option handling of compute_contacts (FrontModel.v): keywords, scheme names and signature defaults of the
+   model are the ones written in contact.py / rdf.py / order.py today (Gen/DescOptions.v, regenerated on every run) *)
+Theorem descriptor_options_match_source :
+  src_scheme_names = m_scheme_names /\ m_scheme_names = map scheme_name all_schemes /\
+  src_scheme_lowered = true /\ src_contacts_keyword = m_contacts_keyword /\
+  dflt_contacts = m_dflt_contacts /\ dflt_scheme = m_dflt_scheme /\
+  dflt_ignore_nonprotein = m_dflt_ignore_nonprotein /\ dflt_periodic = m_dflt_periodic /\
+  dflt_soft_min = m_dflt_soft_min /\
+  (fst dflt_r_range == fst m_dflt_r_range)%Q /\ (snd dflt_r_range == snd m_dflt_r_range)%Q /\
+  (dflt_bin_width == m_dflt_bin_width)%Q /\
+  src_order_chains = m_order_chains /\ src_order_residues = m_order_residues /\
+  dflt_order_indices = m_dflt_order_indices.
+Proof. exact options_match_source. Qed.
+Print Assumptions descriptor_options_match_source.
+
+(* a scheme string is accepted iff (after case folding by the caller) it is the name of one of the five schemes *)
+Theorem contacts_scheme_names : forall s k, scheme_of_string s = Some k <-> s = scheme_name k.
+Proof. exact scheme_of_string_spec. Qed.
+Print Assumptions contacts_scheme_names.
+
+(* the `contacts` argument: the keyword (any spelling of 'all') resolves to all pairs under ignore_nonprotein; an
+   array is accepted iff it is (n, 2), and row k becomes residue pair k *)
+Theorem contacts_argument_forms : forall ig cs,
+  (forall s, front_spec (IStr s) ig = inr cs <-> lower s = m_contacts_keyword /\ cs = CAll ig) /\
+  (forall a, front_spec (IArr a) ig = inr cs <->
+     exists rows, a = A2 2 rows /\ forallb (fun r => length r =? 2) rows = true /\ cs = CExplicit (map row_pair rows)).
+Proof. intros ig cs. split; [intros s; exact (front_spec_keyword s ig cs)|intros a; exact (front_spec_array a ig cs)]. Qed.
+Print Assumptions contacts_argument_forms.
+
+(* which refusal compute_contacts gives and in which order the arguments are examined: topology, `contacts`
+   (keyword / array shape), pair resolution (no acceptable pair, range), then the scheme name *)
+Theorem contacts_dispatch_order : forall top o,
+  let ci := dflt (o_contacts o) (IStr m_dflt_contacts) in
+  let ig := dflt (o_ignore o) m_dflt_ignore_nonprotein in
+  let sn := lower (dflt (o_scheme o) m_dflt_scheme) in
+  match contacts_dispatch top o with
+  | inl FNoTop => o_has_top o = false
+  | inl (FCore e) => o_has_top o = true /\ exists cs, front_spec ci ig = inr cs /\ resolve top cs = inl e
+  | inl FBadScheme =>
+      o_has_top o = true /\ (exists cs rp, front_spec ci ig = inr cs /\ resolve top cs = inr rp) /\
+      (forall k, sn <> scheme_name k)
+  | inl e => o_has_top o = true /\ front_spec ci ig = inl e
+  | inr (s, cs) =>
+      o_has_top o = true /\ front_spec ci ig = inr cs /\ (exists rp, resolve top cs = inr rp) /\ sn = scheme_name s
+  end.
+Proof. exact contacts_dispatch_spec. Qed.
+Print Assumptions contacts_dispatch_order.
+
+Theorem contacts_case_insensitive : forall top ht c1 c2 s1 s2 ig per soft,
+  lower c1 = lower c2 -> lower s1 = lower s2 ->
+  contacts_dispatch top (mkCopts ht (Some (IStr c1)) (Some s1) ig per soft) =
+  contacts_dispatch top (mkCopts ht (Some (IStr c2)) (Some s2) ig per soft).
+Proof. exact contacts_dispatch_case_insensitive. Qed.
+Print Assumptions contacts_case_insensitive.
+
+(* end to end, from the raw arguments: entry (frame fi, column k) is the minimum over membership(p0) x membership(p1)
+   of the residue pair labelled by row k of the returned residue_pairs, in frame fi *)
+Theorem contacts_api_value_is_minimum : forall strict top o box frames rp d2,
+  contacts_api strict top o box frames = FOk rp d2 ->
+  let per := dflt (o_periodic o) m_dflt_periodic in
+  exists s cs, contacts_dispatch top o = inr (s, cs) /\
+    lower (dflt (o_scheme o) m_dflt_scheme) = scheme_name s /\
+    (s <> SCa ->
+     resolve top cs = inr rp /\ length d2 = length frames /\
+     forall fi f k p row v,
+       nth_error frames fi = Some f -> nth_error rp k = Some p ->
+       nth_error d2 fi = Some row -> nth_error row k = Some v ->
+       (exists a b, In a (membership s top (fst p)) /\ In b (membership s top (snd p)) /\
+                    v = dist2 box per f (a, b)) /\
+       (forall a b, In a (membership s top (fst p)) -> In b (membership s top (snd p)) ->
+                    (v <= dist2 box per f (a, b))%Z)).
+Proof. exact contacts_api_value. Qed.
+Print Assumptions contacts_api_value_is_minimum.
+
+(* squareform when a pair may also occur reversed: entry (a, b) holds the distance labelled (b, a) if that label
+   occurs (the assignment contact_maps[:, p1, p0] runs last), else the one labelled (a, b), else 0 *)
+Theorem squareform_reversed_labels : forall d pairs,
+  length d = length pairs -> oriented_nodup pairs ->
+  (forall k a b v, nth_error pairs k = Some (b, a) -> nth_error d k = Some v -> squareform_fn d pairs a b = v) /\
+  (forall k a b v, nth_error pairs k = Some (a, b) -> nth_error d k = Some v ->
+     (forall k', nth_error pairs k' <> Some (b, a)) -> squareform_fn d pairs a b = v) /\
+  (forall a b, (forall k, nth_error pairs k <> Some (a, b) /\ nth_error pairs k <> Some (b, a)) ->
+     squareform_fn d pairs a b = 0%Z).
+Proof. exact squareform_oriented. Qed.
+Print Assumptions squareform_reversed_labels.
+
+(* n_residues = max label + 1: every label fits, and some label touches the last row/column *)
+Theorem squareform_size : forall pairs,
+  (forall p, In p pairs -> fst p < sq_size pairs /\ snd p < sq_size pairs) /\
+  (pairs <> [] -> exists p, In p pairs /\ (S (fst p) = sq_size pairs \/ S (snd p) = sq_size pairs)).
+Proof. exact sq_size_spec. Qed.
+Print Assumptions squareform_size.
+
+(* argument checks of squareform on an (n, 2) label array, in the order of the code *)
+Theorem squareform_argument_checks : forall n_cols d nc rows,
+  forallb (fun r => length r =? nc) rows = true -> nc = 2 ->
+  let zp := map row_pair rows in
+  match squareform_api n_cols d (A2 nc rows) with
+  | SErr SNegative => exists q, In q zp /\ (fst q < 0 \/ snd q < 0)%Z
+  | SErr SMismatch => (forall q, In q zp -> (0 <= fst q /\ 0 <= snd q)%Z) /\ n_cols <> length rows
+  | SErr SEmpty => rows = [] /\ n_cols = 0
+  | SErr _ => False
+  | SOk maps =>
+      (forall q, In q zp -> (0 <= fst q /\ 0 <= snd q)%Z) /\ n_cols = length rows /\ rows <> [] /\
+      maps = map (fun row => squareform row (map (fun q => (Z.to_nat (fst q), Z.to_nat (snd q))) zp)) d
+  end.
+Proof. exact squareform_api_spec. Qed.
+Print Assumptions squareform_argument_checks.
+
 (* ================================================================== centres, Rg, tensor *)
 Open Scope Q_scope.
 
@@ -219,10 +330,82 @@ Theorem density_closed_form : forall ms v,
 Proof. intros ms v. split; [exact (density_form ms v) | exact density_conversion_value]. Qed.
 Print Assumptions density_closed_form.
 
+(* ---- density with a general cell: the volume is the determinant a . (b x c) of the cell vectors *)
+Theorem density_cell_closed_form : forall ms a b c,
+  density_cell ms a b c == qsum ms / triple3 a b c * density_conversion.
+Proof. exact density_cell_form. Qed.
+Print Assumptions density_cell_closed_form.
+
+Theorem cell_volume_is_determinant : forall a b c,
+  triple3 b a c == - triple3 a b c /\ triple3 a c b == - triple3 a b c /\ triple3 b c a == triple3 a b c.
+Proof. exact triple3_alternating. Qed.
+Print Assumptions cell_volume_is_determinant.
+
+(* standard orientation (a along x, b in the xy plane): volume = ax * by * cz; orthorhombic: product of the lengths *)
+Theorem cell_volume_standard_orientation : forall ax bx by_ cx cy cz lx ly lz,
+  triple3 (ax, 0, 0) (bx, by_, 0) (cx, cy, cz) == ax * by_ * cz /\
+  triple3 (lx, 0, 0) (0, ly, 0) (0, 0, lz) == lx * ly * lz.
+Proof. intros. split; [apply triple3_lower_triangular|apply triple3_orthorhombic]. Qed.
+Print Assumptions cell_volume_standard_orientation.
+
+(* the product of the cell lengths is never below the volume and equals it only for orthorhombic cells: a density
+   taken from the lengths is too low for every triclinic cell *)
+Theorem cell_lengths_product_overestimates_volume : forall ax bx by_ cx cy cz,
+  0 < ax -> 0 < by_ -> 0 < cz ->
+  let a := (ax, 0, 0) in let b := (bx, by_, 0) in let c := (cx, cy, cz) in
+  triple3 a b c * triple3 a b c <= lengths_product_sq a b c /\
+  (triple3 a b c * triple3 a b c == lengths_product_sq a b c -> bx == 0 /\ cx == 0 /\ cy == 0).
+Proof. exact lengths_product_overestimates. Qed.
+Print Assumptions cell_lengths_product_overestimates_volume.
+
+Theorem cell_lengths_product_is_not_volume :
+  exists a b c, ~ triple3 a b c * triple3 a b c == lengths_product_sq a b c /\ 0 < triple3 a b c.
+Proof. exact lengths_product_refuted. Qed.
+Print Assumptions cell_lengths_product_is_not_volume.
+
 Theorem dipole_neutral_origin_independent : forall a qs xs,
   length qs = length xs -> qsum qs == 0 -> dipole_about a qs xs == dipole_about 0 qs xs.
 Proof. exact dipole_origin_independent. Qed.
 Print Assumptions dipole_neutral_origin_independent.
+
+(* ---- dipole_moments under periodic cells: per atom the displacement residue-first-atom -> atom plus the
+   displacement atom 0 -> residue-first-atom, each under the minimum image convention *)
+Theorem dipole_signed_minimum_image : forall L d, (0 < L)%Z ->
+  ((exists k, smic L d = d - k * L) /\ - L <= 2 * smic L d < L)%Z.
+Proof. exact smic_spec. Qed.
+Print Assumptions dipole_signed_minimum_image.
+
+(* without a cell, or when no displacement is wrapped, the result is sum_a q_a (r_a - r_0) *)
+Theorem dipole_unwrapped_closed_form : forall box ans qs f,
+  length ans = length qs ->
+  (forall i an, nth_error ans i = Some an ->
+     small_in box (vsub (coord f i) (coord f an)) /\ small_in box (vsub (coord f an) (coord f 0))) ->
+  dipole_frame box ans qs f = dipole_plain qs f.
+Proof. exact dipole_unwrapped. Qed.
+Print Assumptions dipole_unwrapped_closed_form.
+
+(* re-imaging whole residues (each by its own lattice vector; the residue of atom 0 stays) leaves the result unchanged *)
+Theorem dipole_whole_residue_image_invariant : forall b ans qs (f f' : frame) (shift : nat -> vec),
+  (forall a, coord f' a = vadd (coord f a) (vmulc (shift a) b)) ->
+  shift 0%nat = zero3 ->
+  (forall i an, nth_error ans i = Some an -> shift i = shift an) ->
+  dipole_frame (Some b) ans qs f' = dipole_frame (Some b) ans qs f.
+Proof. exact dipole_residue_image_invariant. Qed.
+Print Assumptions dipole_whole_residue_image_invariant.
+
+(* the index-pair tables read from thermodynamic_properties.py are the ones of the model: (first atom of the residue,
+   atom) and (atom 0, first atom of the residue), both with periodic=True, summed per atom *)
+Theorem dipole_index_tables_match_source :
+  src_dipole_local = m_dipole_local /\ src_dipole_molecule = m_dipole_molecule /\
+  src_dipole_periodic = (true, true) /\
+  forall box f an a, atom_disp_gen src_dipole_local src_dipole_molecule box f an a = atom_disp box f an a.
+Proof. exact dipole_indices_match_source. Qed.
+Print Assumptions dipole_index_tables_match_source.
+
+(* the anchor of an atom is the first atom of its residue (atoms numbered in file order) *)
+Theorem dipole_anchor_is_residue_start : forall k raw, anchors (number_top k raw) = anchor_spec k raw.
+Proof. exact anchors_are_residue_starts. Qed.
+Print Assumptions dipole_anchor_is_residue_start.
 
 (* ================================================================== order.py *)
 (* nematic Q tensor of non-zero directors: traceless and symmetric *)
@@ -289,6 +472,26 @@ Theorem order_groups_partition : forall l,
 Proof. intros l. split; [exact (residue_groups_partition l 0)|exact (chain_groups_partition l)]. Qed.
 Print Assumptions order_groups_partition.
 
+(* indices argument of compute_directors / compute_nematic_order: keywords (any case) and the default *)
+Theorem order_indices_keywords : forall raw s,
+  (lower s = m_order_chains -> get_indices raw (Some (XStr s)) = inr (map (map Z.of_nat) (chain_groups 0 None [] raw))) /\
+  (lower s = m_order_residues -> get_indices raw (Some (XStr s)) = inr (map (map Z.of_nat) (residue_groups 0 raw))) /\
+  (lower s <> m_order_chains -> lower s <> m_order_residues -> get_indices raw (Some (XStr s)) = inl OInvalidSelection) /\
+  get_indices raw None = get_indices raw (Some (XStr m_dflt_order_indices)).
+Proof. exact get_indices_keywords. Qed.
+Print Assumptions order_indices_keywords.
+
+(* explicit groups: accepted iff a sequence of sequences of Python ints, returned unchanged and in order; otherwise
+   the first offending element decides which refusal is given *)
+Theorem order_indices_explicit : forall l,
+  match scan_groups l with
+  | inr g => forallb group_ok l = true /\ g = map ints_of l
+  | inl e => exists pre x post, l = pre ++ x :: post /\ forallb group_ok pre = true /\ group_ok x = false /\
+               e = (if is_seq x then ONotInt else OInvalidSelection)
+  end.
+Proof. exact scan_groups_spec. Qed.
+Print Assumptions order_indices_explicit.
+
 (* ================================================================== DRID *)
 (* the one-pass update of moments.cpp yields the mean and the second and third central moments *)
 Theorem online_moments_eq_batch : forall xs, xs <> [] ->
@@ -344,6 +547,51 @@ Theorem rdf_histogram_additive : forall bs xs ys k,
   count_bin bs (xs ++ ys) k = (count_bin bs xs k + count_bin bs ys k)%nat.
 Proof. exact count_bin_app. Qed.
 Print Assumptions rdf_histogram_additive.
+
+(* n_bins given: it decides (bin_width is not looked at) and must be positive *)
+Theorem rdf_n_bins_option : forall rr n bw1 bw2,
+  rdf_options rr (Some n) bw1 = rdf_options rr (Some n) bw2 /\
+  ((n <= 0)%Z -> (exists a b, rr = Some [a; b]) \/ rr = None -> rdf_options rr (Some n) bw1 = inl RNBins) /\
+  (forall r0 r1, (0 < n)%Z -> r0 < r1 -> rdf_options (Some [r0; r1]) (Some n) bw1 = inr (r0, r1, Z.to_nat n)).
+Proof. exact rdf_options_n_bins. Qed.
+Print Assumptions rdf_n_bins_option.
+
+(* n_bins omitted: truncated quotient (r_max - r_min)/bin_width in double precision (default width when omitted);
+   a bin count of zero is refused *)
+Theorem rdf_bin_width_option : forall r0 r1 bw, r0 < r1 ->
+  rdf_options (Some [r0; r1]) None bw =
+  (if (nbins_of_width r0 r1 (dflt bw m_dflt_bin_width) <=? 0)%Z then inl RBinsZero
+   else inr (r0, r1, Z.to_nat (nbins_of_width r0 r1 (dflt bw m_dflt_bin_width)))).
+Proof. exact rdf_options_bin_width. Qed.
+Print Assumptions rdf_bin_width_option.
+
+(* compute_rdf_t: the chunks pairs[i*ncp:(i+1)*ncp], i < ceil(len/ncp), are consecutive non-empty pieces of at most
+   ncp pairs that together are the pair list *)
+Theorem rdf_t_chunks_partition : forall (A : Type) ncp (l : list A), (1 <= ncp)%nat ->
+  concat (chunk_list ncp l) = l /\ length (chunk_list ncp l) = n_chunks ncp (length l) /\
+  (forall ch, In ch (chunk_list ncp l) -> (1 <= length ch <= ncp)%nat).
+Proof.
+  intros A ncp l H. split; [exact (chunks_concat ncp l H)|]. split; [exact (chunks_count ncp l)|].
+  intros ch Hin. exact (chunks_sizes ncp l ch H Hin).
+Qed.
+Print Assumptions rdf_t_chunks_partition.
+
+(* ... and normalising every chunk on its own and averaging with weights len(chunk)/ncp equals the single
+   normalisation over the whole pair list (refinement of rdf_t_entry to the actual chunk lists) *)
+Theorem rdf_t_chunked_equals_flat : forall (P : Type) ncp (period siv v : Q) bs (dist : P -> Q) (ps : list P) k,
+  (1 <= ncp)%nat -> ps <> [] -> ~ period == 0 -> ~ siv == 0 -> ~ v == 0 ->
+  rdf_t_entry_chunked ncp period siv v bs dist ps k == rdf_t_entry_flat period siv v bs dist ps k.
+Proof. exact @rdf_t_chunked_refines. Qed.
+Print Assumptions rdf_t_chunked_equals_flat.
+
+(* self_correlation=True puts the self pairs of the atoms occurring in `pairs` (each once, increasing) in front *)
+Theorem rdf_t_self_correlation_pairs : forall pairs,
+  rdf_t_pairs false pairs = pairs /\
+  exists atoms, rdf_t_pairs true pairs = map (fun a => (a, a)) atoms ++ pairs /\
+    (forall a, In a atoms <-> exists p, In p pairs /\ (a = fst p \/ a = snd p)) /\
+    StronglySorted lt atoms.
+Proof. exact rdf_t_self_pairs. Qed.
+Print Assumptions rdf_t_self_correlation_pairs.
 
 (* ================================================================== Karplus *)
 Theorem karplus_form : forall A B C c,
@@ -412,3 +660,42 @@ Example moments_hypotheses_satisfiable :
   Qeq_bool (let '(_, _, s3) := online_moments [1; 2; 4]%Q in s3) (20 # 27) = true.
 Proof. repeat split; vm_compute; reflexivity. Qed.
 Print Assumptions moments_hypotheses_satisfiable.
+
+(* hypotheses of the option / chunk / dipole theorems are satisfiable by non-trivial instances *)
+Example options_hypotheses_satisfiable :
+  contacts_dispatch ex_top (mkCopts true (Some (IStr "ALL"%string)) (Some "Closest-HEAVY"%string) None None None)
+    = inr (SClosestHeavy, CAll true) /\
+  contacts_dispatch ex_top (mkCopts true (Some (IArr (A2 2 [[0; 9]%Z]))) (Some "bogus"%string) None None None)
+    = inl (FCore ERange) /\
+  contacts_dispatch ex_top (mkCopts true (Some (IArr (A2 2 [[0; 3]%Z]))) (Some "bogus"%string) None None None)
+    = inl FBadScheme /\
+  oriented_nodup [(0, 2); (2, 0); (1, 3)] /\
+  squareform_fn [5; 7; 9]%Z [(0, 2); (2, 0); (1, 3)] 0 2 = 7%Z /\
+  squareform_fn [5; 7; 9]%Z [(0, 2); (2, 0); (1, 3)] 2 0 = 5%Z.
+Proof.
+  repeat split; try (vm_compute; reflexivity).
+  intros k1 k2 p H1 H2.
+  destruct k1 as [|[|[|k1]]]; destruct k2 as [|[|[|k2]]]; simpl in *; try reflexivity;
+    try (destruct k1; discriminate); try (destruct k2; discriminate);
+    inversion H1; subst; discriminate H2.
+Qed.
+Print Assumptions options_hypotheses_satisfiable.
+
+Example chunks_hypotheses_satisfiable :
+  chunk_list 3 [1; 2; 3; 4; 5; 6; 7] = [[1; 2; 3]; [4; 5; 6]; [7]] /\ n_chunks 3 7 = 3 /\ n_chunks 3 6 = 2.
+Proof. repeat split; reflexivity. Qed.
+Print Assumptions chunks_hypotheses_satisfiable.
+
+(* two residues (atoms 0-1, 2-3) in a cell of length 11: wrapped, the anchor bookkeeping differs from the plain sum;
+   moving residue 1 by one cell length changes nothing *)
+Example dipole_hypotheses_satisfiable :
+  let b := (11, 11, 11)%Z in
+  let f := [(0, 0, 0); (1, 0, 0); (9, 0, 0); (10, 0, 0)]%Z in
+  let f' := [(0, 0, 0); (1, 0, 0); (20, 0, 0); (21, 0, 0)]%Z in
+  dipole_frame (Some b) [0; 0; 2; 2] [1; -1; 2; -2]%Z f = (-3, 0, 0)%Z /\
+  dipole_plain [1; -1; 2; -2]%Z f = (-3, 0, 0)%Z /\
+  dipole_frame (Some b) [0; 0; 2; 2] [1; -1; 2; -2]%Z f' = (-3, 0, 0)%Z /\
+  dipole_frame (Some b) [0; 0; 2; 2] [1; 0; 0; -1]%Z f = (1, 0, 0)%Z /\
+  dipole_plain [1; 0; 0; -1]%Z f = (-10, 0, 0)%Z.
+Proof. repeat split; vm_compute; reflexivity. Qed.
+Print Assumptions dipole_hypotheses_satisfiable.
